@@ -190,6 +190,9 @@ class _Quadrature(torch.autograd.Function):
                 # are still the same objects as the objects outside
                 with torch.enable_grad():
                     f = fcn(x, *params)
+                if not f.requires_grad:
+                    # none of the differentiable tensors enters the integrand
+                    return tuple(torch.zeros_like(p) for p in tensor_params)
                 dfdts = torch.autograd.grad(f, tensor_params,
                                             grad_outputs=grad_ys,
                                             retain_graph=True,
